@@ -44,7 +44,7 @@ def run(R, env):
     R.ob("C03.R1", "LiquidStake:mint-amount-identified", M is not None, "no `total_liquid_stake_token += M` found", fn=hk)
     if M is None:
         return
-    isM = lambda t: t is not None and same(t, M)
+    isM = lambda t: t is not None and shared.same_any(prog, t, M)
     R.info("C03.R1", "M = " + fmt(M)[:300])
     tfs = shared.tf_messages(prog, h, env)
     mints = [m for m in tfs if m["kind"] == "mint"]
@@ -84,20 +84,38 @@ def run(R, env):
     isP = lambda t: vcall(t, "protocol_chain_config")
     isN = lambda t: vcall(t, "native_chain_config")
     isF = lambda t: t[0] == "call" and t[1] == "std::option::Option::unwrap_or" and shared.msg_field(t[2][0], "LiquidStake", "transfer_to_native_chain") and t[2][1] == ("const", "bool", False)
-    seenP = any(isP(s_) for _, atom in h.atoms() if atom[0] == "bool" for s_ in subterms(atom[1]))
-    seenN = any(isN(s_) for _, atom in h.atoms() if atom[0] == "bool" for s_ in subterms(atom[1]))
+    from engine.analysis import inline_walk as _iw
+    tested = [s_ for c_, p_ in _iw(prog, h, 2) for _, atom in c_.atoms() if atom[0] == "bool" for s_ in subterms(atom[1])]
+    seenP = any(isP(s_) for s_ in tested)
+    seenN = any(isN(s_) for s_ in tested)
     R.ob("C03.R2", "LiquidStake:recipient-classified-by-both-prefixes", seenP and seenN, "the recipient is not tested with validate_address against the protocol prefix (%s) and the native prefix (%s)" % (seenP, seenN), fn=hk)
     TABLE = [((True, False, None), "bank"), ((False, True, None), "ibc"), ((True, True, False), "bank"), ((True, True, True), "ibc"), ((False, False, None), "none")]
+    flagf = lambda t: shared.msg_field(t, "LiquidStake", "transfer_to_native_chain")
+    flagv = lambda t: t[0] == "payload" and flagf(t[1])
+    WORLDS = []
     for (p_, n_, f_), want in TABLE:
-        w = h.assume_bool(isP, p_).assume_bool(isN, n_)
-        if f_ is not None:
-            w = w.assume_bool(isF, f_)
+        base = h.assume_bool(isP, p_).assume_bool(isN, n_)
+        if f_ is None:
+            WORLDS.append(((p_, n_, f_), want, base))
+        elif f_:
+            # the flag is Some(true): `unwrap_or(false)` is true, a match on it takes the Some(true) arm
+            WORLDS.append(((p_, n_, f_), want, base.assume_bool(isF, True).assume_ok(flagf, True).assume_bool(flagv, True)))
+        else:
+            # the flag is None or Some(false)
+            WORLDS.append(((p_, n_, f_), want, base.assume_bool(isF, False).assume_ok(flagf, False)))
+            WORLDS.append(((p_, n_, f_), want, base.assume_bool(isF, False).assume_ok(flagf, True).assume_bool(flagv, False)))
+    verdict = {}
+    for (p_, n_, f_), want, w in WORLDS:
         w = w.settle(rounds=10)
         R.worlds += 1
         nb = len(shared.find_msgs(prog, w, env.depth, ["bank::v1beta1::MsgSend", "cosmwasm_std::BankMsg"]))
         ni = len([t for t in shared.transfers(prog, w, env) if lst_denom(prog, t["denom"])])
-        succ = any(e["kind"] != "err" for e in exits(w))
+        from engine.analysis import success_exits
+        succ = bool(success_exits(w))
         got = "none" if not succ else ("bank" if nb and not ni else "ibc" if ni and not nb else "both" if nb and ni else "neither")
+        verdict.setdefault((p_, n_, f_), (want, []))[1].append(got)
+    for (p_, n_, f_), (want, gots) in verdict.items():
+        got = gots[0] if len(set(gots)) == 1 else "/".join(gots)
         R.ob("C03.R2", "LiquidStake:arm:protocol=%s,native=%s,to_native=%s" % (p_, n_, f_), got == want, "recipient valid on protocol chain=%s / native chain=%s, transfer_to_native_chain=%s: delivery is `%s`, expected `%s`" % (p_, n_, f_, got, want), fn=hk)
     # ---------------- R3
     hs = sites["SubmitBatch"]
